@@ -281,7 +281,7 @@ class MailboxWorld:
     explored={kinds}, coarse={client indexes whose up/down run eagerly},
     welcome={...}, reorder=int, dup=int, acks=bool, initial_fail=bool"""
 
-    KINDS = ("nconn_ok", "nconn_fail", "ndeliver", "nclose", "nlose", "down", "up", "api", "raw", "turn", "connect", "stopfin", "reorder", "dup", "srverr", "drop", "connfail")
+    KINDS = ("nconn_ok", "nconn_fail", "ndeliver", "nclose", "nlose", "down", "up", "api", "raw", "turn", "connect", "stopfin", "reorder", "dup", "srverr", "drop", "hsfail", "connfail")
 
     def __init__(self, cfg, seed=0):
         self.cfg = cfg
@@ -298,6 +298,7 @@ class MailboxWorld:
         self.reorder_left = cfg.get("reorder", 0)
         self.dup_left = cfg.get("dup", 0)
         self.srverr_left = cfg.get("srverr", 0)
+        self.hsfail_left = cfg.get("hsfail", 0)
         self.monitors = list(cfg.get("monitors", ()))
         self.final_monitors = list(cfg.get("final_monitors", ()))
         self._pending_services = []
@@ -455,6 +456,12 @@ class MailboxWorld:
                 for side in (0, 1):
                     if not link.ends[side].transport.closed and not link.broken:
                         evs.append(("nlose", link.idx, side))
+        if self.hsfail_left > 0:
+            # a reconnection attempt whose TCP connection succeeds but whose WebSocket negotiation fails:
+            # Autobahn delivers onClose without onOpen; ClientService will simply try again
+            for c in self.clients:
+                if c.svc.running and c.ever_connected and (c.conn is None or not c.conn.open):
+                    evs.append(("hsfail", c.ci))
         if self.cfg.get("initial_fail"):
             for c in self.clients:
                 if c.svc.running and not c.ever_connected and c.conn is None and not getattr(c, "failed", False):
@@ -521,7 +528,7 @@ class MailboxWorld:
     def _closure(self):
         n = 0
         while True:
-            evs = [e for e in self._all_enabled() if self._is_eager(e) and e[0] not in ("drop", "dup", "reorder", "connfail", "srverr", "nlose")]
+            evs = [e for e in self._all_enabled() if self._is_eager(e) and e[0] not in ("drop", "dup", "reorder", "connfail", "srverr", "nlose", "hsfail")]
             if not evs:
                 break
             self._do(evs[0])
@@ -592,6 +599,9 @@ class MailboxWorld:
             payload = c.conn.up.popleft()
             orig = json.loads(payload.decode("utf-8"))
             c.conn.down.append({"type": "error", "error": "crowded", "orig": orig})
+        elif kind == "hsfail":
+            self.hsfail_left -= 1
+            self._guard("ws_close", c, c.boss._RC.ws_close, False, 1006, "WebSocket opening handshake failed")
         elif kind == "connfail":
             c.failed = True
             for d in c.svc.when_connected:
@@ -869,7 +879,7 @@ class MailboxWorld:
                               tuple((e.transport.closed, e.transport.disconnecting, e.owner) for e in link.ends)))
             netimg = (tuple(links), tuple((a.reactor.name, a.host, a.port, a.state) for a in self.net.attempts),
                       tuple(sorted((h, p, port.listening) for (h, p), port in self.net.listeners.items())), self.nlose_left)
-        return (netimg, tuple(parts), tuple((a.pc, a.mailbox, a.errors) for a in self.raw), im.img(srv), self.reorder_left, self.dup_left, self.srverr_left,
+        return (netimg, tuple(parts), tuple((a.pc, a.mailbox, a.errors) for a in self.raw), im.img(srv), self.reorder_left, self.dup_left, self.srverr_left, self.hsfail_left,
                 tuple(self.errors), tuple(self.escaped), tuple(self.server_errors),
                 im.img(self.cfg.get("extra_state")(self)) if self.cfg.get("extra_state") else None)
 
